@@ -32,6 +32,7 @@ func init() {
 		"go.client.deadlines":  goClientDeadlines,
 		"go.client.idle":       goClientIdle,
 		"go.client.stalled":    goClientStalled,
+		"go.client.wait":       goClientWait,
 	}})
 }
 
@@ -226,6 +227,8 @@ type scenario struct {
 	rngMu   sync.Mutex
 	rng     *rand.Rand
 	closing atomic.Bool
+	// wait: script for the lite-server wrapper calls (nil: such queries are refused)
+	wait *waitScript
 	// stall: the servers stop READING from their connections (a stalled peer: TCP window closes)
 	stall atomic.Bool
 	// optional caller-side deadline for some calls
@@ -295,7 +298,10 @@ func (ss *scriptServer) loop() {
 		if err != nil {
 			// a handshake for another key is not ours: a Connection retired by an earlier scenario of this process may
 			// still be in its reconnect loop and reach a listener that got the same port
-			if !ss.sc.closing.Load() && !strings.Contains(err.Error(), "unknown key id") {
+			// ... and a peer whose 256 bytes do not arrive within the server's 2 s is cut off (the client retries): a
+			// slow machine, not a protocol failure
+			if !ss.sc.closing.Load() && !strings.Contains(err.Error(), "unknown key id") &&
+				!strings.Contains(err.Error(), "i/o timeout") && !strings.Contains(err.Error(), "EOF") {
 				ss.sc.log.setFail("handshake-rejected-by-server conn=%d %v", ss.idx, err)
 			}
 			continue
@@ -372,6 +378,10 @@ func (ss *scriptServer) serve(sc *srvConn) {
 			}
 			if len(body) < 4 {
 				ss.sc.log.setFail("malformed-query-body")
+				continue
+			}
+			if binary.LittleEndian.Uint32(body) == 0x798c06df { // liteServer.query: a lite-server method call
+				ss.serveLiteQuery(sc, id, body)
 				continue
 			}
 			k := int(binary.LittleEndian.Uint32(body))
@@ -1037,6 +1047,178 @@ func goClientStalled(a []string) string {
 	return "ok"
 }
 
+// ---- lite-server method calls read with the harness's OWN TL reading (constants from TON's lite_api.tl) ---------------
+//
+//	liteServer.query#798c06df data:bytes = Object
+//	liteServer.waitMasterchainSeqno#baeab892 seqno:int timeout_ms:int = Object   (a prefix: the query proper follows)
+//	liteServer.lookupBlock#fac8f71e mode:# id:tonNode.blockId lt:mode.1?long utime:mode.2?int = liteServer.BlockHeader
+//	tonNode.blockId workchain:int shard:long seqno:int
+//	liteServer.blockHeader#752d8219 id:tonNode.blockIdExt mode:# header_proof:bytes
+//	liteServer.error#bba9e148 code:int message:string
+
+// readTLBytes reads a TL `bytes` value (length prefix, data, padding to 4) and returns data and the rest.
+func readTLBytes(b []byte) (data, rest []byte, ok bool) {
+	if len(b) == 0 {
+		return nil, nil, false
+	}
+	n, hdr := int(b[0]), 1
+	if b[0] == 254 {
+		if len(b) < 4 {
+			return nil, nil, false
+		}
+		n, hdr = int(b[1])|int(b[2])<<8|int(b[3])<<16, 4
+	} else if b[0] == 255 {
+		return nil, nil, false
+	}
+	total := hdr + n
+	pad := (4 - total%4) % 4
+	if len(b) < total+pad {
+		return nil, nil, false
+	}
+	return b[hdr:total], b[total+pad:], true
+}
+
+func tlError(code uint32, msg string) []byte {
+	out := []byte{0x48, 0xe1, 0xa9, 0xbb}
+	out = binary.LittleEndian.AppendUint32(out, code)
+	return append(out, tlBytes([]byte(msg))...)
+}
+
+// waitScript: what the server expects and answers for the lite-server wrapper calls of one scenario
+type waitScript struct {
+	mu       sync.Mutex
+	seqno    uint32
+	timeout  uint32
+	errCode  uint32 // answer liteServer.error with this code instead of a result (0 = the normal answer)
+	rootHash []byte
+	fileHash []byte
+	proof    []byte
+	seen     []string
+}
+
+func (ss *scriptServer) serveLiteQuery(sc *srvConn, id, body []byte) {
+	w := ss.sc.wait
+	answer := func(b []byte) { sc.sendPacket(ss.sc.rndBytes(32), answerPacket(id, b)) }
+	if w == nil {
+		answer(tlError(400, "no lite-server script"))
+		return
+	}
+	w.mu.Lock()
+	defer w.mu.Unlock()
+	data, _, ok := readTLBytes(body[4:])
+	if !ok || len(data) < 12 {
+		ss.sc.log.setFail("lite-query-malformed")
+		answer(tlError(400, "malformed liteServer.query"))
+		return
+	}
+	if binary.LittleEndian.Uint32(data) != 0xbaeab892 {
+		ss.sc.log.setFail("wait-prefix-wrong-constructor got=%08x want=baeab892", binary.LittleEndian.Uint32(data))
+		answer(tlError(400, "unknown constructor"))
+		return
+	}
+	seqno, tmo := binary.LittleEndian.Uint32(data[4:]), binary.LittleEndian.Uint32(data[8:])
+	if seqno != w.seqno || tmo != w.timeout {
+		ss.sc.log.setFail("wait-prefix-wrong-arguments seqno=%d timeout=%d", seqno, tmo)
+		answer(tlError(400, "bad arguments"))
+		return
+	}
+	inner := data[12:]
+	if w.errCode != 0 {
+		answer(tlError(w.errCode, "scripted error"))
+		return
+	}
+	if len(inner) == 0 {
+		// the bare prefix: tongo's WaitMasterchainSeqno expects liteServer.error with code 0 as "reached"
+		w.seen = append(w.seen, "wait")
+		answer(tlError(0, ""))
+		return
+	}
+	// the query proper: liteServer.lookupBlock mode=1 id=(-1, 0x8000000000000000, seqno)
+	if len(inner) != 4+4+16 || binary.LittleEndian.Uint32(inner) != 0xfac8f71e {
+		ss.sc.log.setFail("wait-inner-query-not-lookupBlock len=%d first=%08x", len(inner), binary.LittleEndian.Uint32(append(inner, 0, 0, 0, 0)))
+		answer(tlError(400, "unknown inner query"))
+		return
+	}
+	mode := binary.LittleEndian.Uint32(inner[4:])
+	wc := binary.LittleEndian.Uint32(inner[8:])
+	shard := binary.LittleEndian.Uint64(inner[12:])
+	sq := binary.LittleEndian.Uint32(inner[20:])
+	if mode != 1 || wc != 0xffffffff || shard != 0x8000000000000000 || sq != w.seqno {
+		ss.sc.log.setFail("wait-lookupBlock-arguments mode=%d wc=%08x shard=%016x seqno=%d", mode, wc, shard, sq)
+		answer(tlError(400, "bad lookupBlock"))
+		return
+	}
+	w.seen = append(w.seen, "lookup")
+	out := []byte{0x19, 0x82, 0x2d, 0x75}
+	out = binary.LittleEndian.AppendUint32(out, wc)
+	out = binary.LittleEndian.AppendUint64(out, shard)
+	out = binary.LittleEndian.AppendUint32(out, sq)
+	out = append(out, w.rootHash...)
+	out = append(out, w.fileHash...)
+	out = binary.LittleEndian.AppendUint32(out, 1)
+	out = append(out, tlBytes(w.proof)...)
+	answer(out)
+}
+
+// goClientWait: the HAND-WRITTEN request wrappers of client.go (WaitMasterchainSeqno, WaitMasterchainBlock) through the
+// real Client; the server reads the bytes with its own TL reading: liteServer.query, the waitMasterchainSeqno prefix with
+// its arguments, the lookupBlock query behind it, and answers liteServer.error / liteServer.blockHeader.
+//
+//	args: seed nconn
+func goClientWait(a []string) string {
+	quiet12()
+	return retryStalled(time.Second, func() string { return goClientWait1(a) })
+}
+
+func goClientWait1(a []string) string {
+	seed, nconn := int64(atoi12(a[0])), atoi12(a[1])
+	sc, conns, err := newScenario(seed, nconn, 2*time.Second, nil)
+	if err != nil {
+		return "FAIL setup " + err.Error()
+	}
+	defer sc.shutdown(conns)
+	w := &waitScript{}
+	sc.wait = w
+	set := func(errCode uint32) {
+		w.mu.Lock()
+		w.seqno, w.timeout, w.errCode = uint32(sc.rnd(1<<30)), uint32(sc.rnd(100000)), errCode
+		w.rootHash, w.fileHash, w.proof = sc.rndBytes(32), sc.rndBytes(32), sc.rndBytes(sc.rnd(400))
+		w.mu.Unlock()
+	}
+	ctx := context.Background()
+	for round := 0; round < 3; round++ {
+		set(0)
+		if err := sc.client.WaitMasterchainSeqno(ctx, w.seqno, w.timeout); err != nil {
+			return "FAIL WaitMasterchainSeqno-failed " + firstLine(err.Error()) + " server: " + sc.log.fail
+		}
+		set(0)
+		res, err := sc.client.WaitMasterchainBlock(ctx, w.seqno, w.timeout)
+		if err != nil {
+			return "FAIL WaitMasterchainBlock-failed " + firstLine(err.Error()) + " server: " + sc.log.fail
+		}
+		if res.Id.Seqno != w.seqno || res.Id.Workchain != 0xffffffff || res.Id.Shard != 0x8000000000000000 ||
+			!bytes.Equal(res.Id.RootHash[:], w.rootHash) || !bytes.Equal(res.Id.FileHash[:], w.fileHash) ||
+			res.Mode != 1 || !bytes.Equal(res.HeaderProof, w.proof) {
+			return "FAIL WaitMasterchainBlock-wrong-header"
+		}
+		// a lite-server error must come back as an error from both wrappers
+		set(uint32(600 + sc.rnd(100)))
+		if err := sc.client.WaitMasterchainSeqno(ctx, w.seqno, w.timeout); err == nil {
+			return "FAIL WaitMasterchainSeqno-ignores-error"
+		}
+		if _, err := sc.client.WaitMasterchainBlock(ctx, w.seqno, w.timeout); err == nil {
+			return "FAIL WaitMasterchainBlock-ignores-error"
+		}
+	}
+	if f := sc.log.fail; f != "" {
+		return "FAIL " + f
+	}
+	if n := sc.client.VerifQueriesLen(); n != 0 {
+		return fmt.Sprintf("FAIL registry-leak entries=%d", n)
+	}
+	return "ok"
+}
+
 // goClientRoundRobin: sequential calls over n connections reach the servers in the order 0,1,..,n-1,0,..
 func goClientRoundRobin(a []string) string {
 	quiet12()
@@ -1318,6 +1500,10 @@ func genC12(g *h.G) {
 		g.Emit("go.client.roundrobin", fmt.Sprint(n), fmt.Sprint(3*n+2))
 	}
 	g.Emit("go.client.goroutines", fmt.Sprint(g.Rng.Int31()), "300", fmt.Sprint(g.Scale(3000, 10000)))
+	for i := 0; i < g.Scale(12, 120); i++ {
+		g.Count("wrapper_call_scenarios")
+		g.Emit("go.client.wait", fmt.Sprint(g.Rng.Int31()), fmt.Sprint(1+g.Rng.Intn(3)))
+	}
 	for i := 0; i < g.Scale(24, 300); i++ {
 		g.Count("deadline_scenarios")
 		g.Emit("go.client.deadlines", fmt.Sprint(g.Rng.Int31()), fmt.Sprint(1+g.Rng.Intn(3)), fmt.Sprint(g.Pick(120, 150, 200, 300)))
